@@ -61,11 +61,12 @@ def gen_call(rng):
         dgms.append(mk_dgm(rng, [rng.randint(1, 8) for _ in range(rng.randint(1, 6))]))
     ki, hasvi, vi = 0, 0, 0
     if kind == "inf" or rng.random() < 0.25:
+        vi = rng.choice([60, 100, 5, 0, 0])   # 5 may lie below a birth: non-positive length => must raise
         for dd in dgms[:1 + rng.randrange(len(dgms))]:
-            dd.insert(rng.randrange(len(dd) + 1), [rng.randint(0, 10), 0, 0])
+            # substitution value 0 (a legal cap for classes born at negative values): infinite bars born below 0
+            dd.insert(rng.randrange(len(dd) + 1), [rng.randint(-10, -1) if vi == 0 else rng.randint(0, 10), 0, 0])
         ki = rng.choice([0, 1, 1])
         hasvi = rng.choice([0, 1, 1]) if ki else rng.choice([0, 1])
-        vi = rng.choice([60, 100, 5])   # 5 may lie below a birth: non-positive length => must raise
     if kind == "bad":
         q = rng.randrange(len(dgms))
         b = rng.randint(0, 10)
@@ -137,7 +138,7 @@ def run(ctx):
         dg = [[[b, (0 if dd == 1000 else dd), 0 if dd == 1000 else 1] for b, dd in P[q - 1]] for q in d["input"]]
         calls.append(dict(dgms=dg, keepinf=int(d["keepinf"]), hasvi=int(d["valinf"] != -1), vi=7, normalize=int(d["normalize"]), islist=1 if len(dg) > 1 else 0))
     ctx.extra["replayed_spec_cases"] = len(calls)
-    embs_all = EXACT_EMBS[:4] + DEC_EMBS[:3]
+    embs_all = EXACT_EMBS[:4] + DEC_EMBS[:3] + EXACT_EMBS[4:6]   # incl. scales 2^-50 (total length far below 1e-10) and 2^30
     validate(ctx, calls, [embs_all[i % len(embs_all)] for i in range(len(calls))], "R")
     n = 1200 if quick else 12000
     calls = [gen_call(ctx.rng) for _ in range(n)]
